@@ -167,6 +167,17 @@ fn msg_class(m: &str) -> String {
   out
 }
 
+/// "const[3].offset=0x…" -> "const.offset"; "blob const[4]+0 (4 bytes)=…" -> "blob"; "patch [622]=…" -> "patch"
+fn label_class(label: &str) -> String {
+  let head = label.split('=').next().unwrap_or("").trim();
+  let mut out = String::new();
+  let mut skip = false;
+  for c in head.chars() {
+    match c { '[' => skip = true, ']' => skip = false, ' ' | '+' | '(' => break, c if !skip => out.push(c), _ => {} }
+  }
+  if out.is_empty() { head.split_whitespace().next().unwrap_or("").to_string() } else { out }
+}
+
 /// Oracle for one damaged file.
 pub fn judge(m: &Mutation, fr: &FeedResult, file_len: usize) -> Option<Violation> {
   let v = |class: &str, detail: String, summary: String| Some(Violation { class: class.to_string(), signature: format!("{}|{}|{}", class, m.kind, detail), summary, mutation: Some(m.clone()) });
@@ -176,7 +187,7 @@ pub fn judge(m: &Mutation, fr: &FeedResult, file_len: usize) -> Option<Violation
     _ => {}
   }
   if fr.largest_alloc > alloc_limit(file_len) {
-    return v("unbounded-allocation", m.label.split('=').next().unwrap_or("").to_string(), format!("{}: largest single allocation {} bytes for a {}-byte file", m.label, fr.largest_alloc, file_len));
+    return v("unbounded-allocation", label_class(&m.label), format!("{}: largest single allocation {} bytes for a {}-byte file", m.label, fr.largest_alloc, file_len));
   }
   match m.kind.as_str() {
     "t" | "b" | "u" => match &fr.fed {
